@@ -99,7 +99,8 @@ class D1:
                 if path in STD_VIEWS:
                     e = args[0]
                     continue
-                if path in STD_INDEX and "RangeFull" in e[3]:
+                if path in STD_INDEX and ("RangeFull" in (e[3] if len(e) > 3 else "") or
+                                          (len(args) == 2 and isinstance(args[1], tuple) and args[1][0] == "agg" and "RangeFull" in str(args[1][1]))):
                     e = args[0]
                     continue
                 # crate-local view?
